@@ -16,7 +16,8 @@ import (
 // ---------------------------------------------------------------- group A: uint keys
 
 type AUser struct {
-	ID        uint `gorm:"primaryKey;autoIncrement:false"`
+	Label     *string // nullable column declared before the key (first column of the table)
+	ID        uint    `gorm:"primaryKey;autoIncrement:false"`
 	Tag       int
 	BossID    *uint
 	Boss      *AUser    `gorm:"foreignKey:BossID"`
@@ -40,7 +41,8 @@ type ACompany struct {
 }
 
 type AProfile struct {
-	ID     uint `gorm:"primaryKey;autoIncrement:false"`
+	Label  *string // nullable column declared before the key (first column of the table)
+	ID     uint    `gorm:"primaryKey;autoIncrement:false"`
 	Tag    int
 	UserID *uint
 }
@@ -74,7 +76,8 @@ type ANote struct {
 }
 
 type ABadge struct {
-	ID        uint `gorm:"primaryKey;autoIncrement:false"`
+	Label     *string // nullable column declared before the key (first column of the table)
+	ID        uint    `gorm:"primaryKey;autoIncrement:false"`
 	Tag       int
 	OwnerID   *uint
 	OwnerType string
@@ -98,9 +101,10 @@ func (AFriend) TableName() string { return "a_friends" }
 // ---------------------------------------------------------------- group S: string keys
 
 type SUser struct {
-	ID        string `gorm:"primaryKey"`
-	Tag       int
+	Label     *string // nullable column declared before the key (first column of the table)
+	ID        string  `gorm:"primaryKey"`
 	BossID    *string
+	Tag       int
 	Boss      *SUser    `gorm:"foreignKey:BossID"`
 	Team      []*SUser  `gorm:"foreignKey:BossID"`
 	CompanyID string    // "" = none
@@ -114,7 +118,8 @@ type SUser struct {
 }
 
 type SCompany struct {
-	ID        string `gorm:"primaryKey"`
+	Label     *string // nullable column declared before the key (first column of the table)
+	ID        string  `gorm:"primaryKey"`
 	Tag       int
 	DeletedAt gorm.DeletedAt
 	Staff     []*SUser `gorm:"foreignKey:CompanyID"`
@@ -156,7 +161,8 @@ type SNote struct {
 }
 
 type SBadge struct {
-	ID        string `gorm:"primaryKey"`
+	Label     *string // nullable column declared before the key (first column of the table)
+	ID        string  `gorm:"primaryKey"`
 	Tag       int
 	OwnerID   *string
 	OwnerType string
@@ -180,11 +186,12 @@ func (SFriend) TableName() string { return "s_friends" }
 // ---------------------------------------------------------------- group C: composite int+string keys
 
 type CUser struct {
-	Org      int    `gorm:"primaryKey;autoIncrement:false"`
-	Code     string `gorm:"primaryKey"`
-	Tag      int
+	Label    *string // nullable column declared before the key (first column of the table)
+	Org      int     `gorm:"primaryKey;autoIncrement:false"`
+	Code     string  `gorm:"primaryKey"`
 	BossOrg  *int
 	BossCode *string
+	Tag      int
 	Boss     *CUser  `gorm:"foreignKey:BossOrg,BossCode;references:Org,Code"`
 	Team     []CUser `gorm:"foreignKey:BossOrg,BossCode;references:Org,Code"`
 	CoOrg    *int
@@ -196,8 +203,9 @@ type CUser struct {
 }
 
 type CCompany struct {
-	Org       int    `gorm:"primaryKey;autoIncrement:false"`
-	Code      string `gorm:"primaryKey"`
+	Label     *string // nullable column declared before the key (first column of the table)
+	Org       int     `gorm:"primaryKey;autoIncrement:false"`
+	Code      string  `gorm:"primaryKey"`
 	Tag       int
 	DeletedAt gorm.DeletedAt
 	Staff     []*CUser `gorm:"foreignKey:CoOrg,CoCode;references:Org,Code"`
@@ -211,7 +219,8 @@ type CProfile struct {
 }
 
 type CPet struct {
-	ID        uint `gorm:"primaryKey;autoIncrement:false"`
+	Label     *string // nullable column declared before the key (first column of the table)
+	ID        uint    `gorm:"primaryKey;autoIncrement:false"`
 	Tag       int
 	UserOrg   *int
 	UserCode  *string
@@ -245,8 +254,9 @@ func (CUserLang) TableName() string { return "c_user_langs" }
 // ---------------------------------------------------------------- group D: composite string+string keys
 
 type DUser struct {
-	K1      string `gorm:"primaryKey"`
-	K2      string `gorm:"primaryKey"`
+	Label   *string // nullable column declared before the key (first column of the table)
+	K1      string  `gorm:"primaryKey"`
+	K2      string  `gorm:"primaryKey"`
 	Tag     int
 	BossK1  *string
 	BossK2  *string
@@ -261,15 +271,17 @@ type DUser struct {
 }
 
 type DCompany struct {
-	K1        string `gorm:"primaryKey"`
-	K2        string `gorm:"primaryKey"`
+	Label     *string // nullable column declared before the key (first column of the table)
+	K1        string  `gorm:"primaryKey"`
+	K2        string  `gorm:"primaryKey"`
 	Tag       int
 	DeletedAt gorm.DeletedAt
 	Staff     []DUser `gorm:"foreignKey:CoK1,CoK2;references:K1,K2"`
 }
 
 type DProfile struct {
-	ID     uint `gorm:"primaryKey;autoIncrement:false"`
+	Label  *string // nullable column declared before the key (first column of the table)
+	ID     uint    `gorm:"primaryKey;autoIncrement:false"`
 	Tag    int
 	UserK1 *string
 	UserK2 *string
